@@ -495,6 +495,20 @@ func (r *run) runStream() {
 			overAt = t.Draw(core.Fault, hp.nBatches)
 		}
 	}
+	// C01-C03: now and then a marathon stream: every batch is small but the
+	// cumulative number of id-bearing parents exceeds the 16-bit id range
+	marathon := false
+	if prop == "C01" || prop == "C02" || prop == "C03" {
+		rate := 2500
+		if thorough {
+			rate = 400
+		}
+		if t.Chance(core.Gen, 1, rate) {
+			marathon = true
+			hp.nBatches = 72
+			r.probe("marathon_stream_over_65535_parents_in_total")
+		}
+	}
 	// C01-C03: now and then the largest batch the domain allows
 	boundaryAt := -1
 	if prop == "C01" || prop == "C02" || prop == "C03" {
@@ -516,6 +530,8 @@ func (r *run) runStream() {
 		} else if boundaryAt == i {
 			b = boundaryBatch(hp.signals[0])
 			r.probe("boundary_batch_65535_parents")
+		} else if marathon && i%9 != 8 {
+			b = denseBatch(hp.signals[0], 1000, i)
 		} else {
 			b = r.genBatch(hp, i)
 		}
